@@ -360,6 +360,8 @@ def const_model(I, p, base):
         return Adt('LevelFilter', 5, [])
     if base.endswith('base64::prelude::STANDARD') or last == 'STANDARD':
         return Opaque('base64::STANDARD')
+    if 'base64' in base and last in ('URL_SAFE', 'URL_SAFE_NO_PAD', 'STANDARD_NO_PAD'):
+        return Opaque('base64::' + last)
     return None
 
 
@@ -446,6 +448,11 @@ def _deref(I, info, args):
         body = I.P.impls.get(('WithCtx', 'Deref', 'deref'))
         return I.run_body(body, args, 'WithCtx')
     raise Unsupported('Deref for %s' % info['self'])
+
+
+@path(('Vec', 'as_slice'), ('Vec', 'as_mut_slice'))
+def _vec_as_slice(I, info, args):
+    return args[0]      # a slice view of a Vec is the Vec behind the same pointer
 
 
 @trait('DerefMut', 'deref_mut')
@@ -834,6 +841,112 @@ def _vec_insert(I, info, args):
     return UNIT
 
 
+@path(('Vec', 'splice'))
+def _vec_splice(I, info, args):
+    """vec.splice(range, iter): performed eagerly (std performs it when the returned Splice is dropped, which the callers met so
+    far do at once); returns the removed elements"""
+    items = I.vec_items(args[0])
+    r = deref(args[1])
+    if not (isinstance(r, Adt) and r.ty == 'Range'):
+        raise Unsupported('Vec::splice with %r' % (r,))
+    a = I.concretize_int(r.fields[0])
+    b = I.concretize_int(r.fields[1])
+    if a > b or b > len(items):
+        raise Panic('splice-out-of-bounds', '/'.join(I.stack[-2:]))
+    it = get_iter(I, _into_iter(I, info, [args[2]]) if not isinstance(args[2], IterV) else args[2])
+    new = []
+    while True:
+        x = it.next()
+        if x is None:
+            break
+        new.append(x)
+    removed = items[a:b]
+    items[a:b] = new
+    return iter_values(I, removed)
+
+
+@path(('str', 'strip_prefix'))
+def _strip_prefix(I, info, args):
+    s = as_str(I, args[0])
+    p = as_str(I, args[1])
+    if s.concrete() and p.concrete():
+        return some(StrV(s.s[len(p.s):])) if s.s.startswith(p.s) else none()
+    c = _starts_with(I, info, args)
+    if to_bool(I, c, 'strip_prefix'):
+        n = str_len(I, p)
+        return some(StrV(z3.SubString(s.z(), n, z3.Length(s.z()) - n)))
+    return none()
+
+
+class EntryV:
+    """std::collections::hash_map::Entry: (map storage, key, index or -1)"""
+    __slots__ = ('s', 'key', 'idx', 'vty')
+
+    def __init__(self, s, key, idx, vty):
+        self.s, self.key, self.idx, self.vty = s, key, idx, vty
+
+
+@path(('HashMap', 'entry'))
+def _hm_entry(I, info, args):
+    s = _setv(args[0])
+    from mirparse import split_top
+    mm = re.search(r'HashMap::<(.*)>::entry', info['raw'])
+    vty = split_top(mm.group(1))[1].strip() if mm and len(split_top(mm.group(1))) > 1 else None
+    return EntryV(s, args[1], set_find(I, s, args[1], 'HashMap::entry'), vty)
+
+
+def _entry_slot(e, make_default):
+    if e.idx < 0:
+        e.s.keys.append(e.key)
+        e.s.vals.append(make_default())
+        e.idx = len(e.s.keys) - 1
+    return Ptr(Cell(VecV(e.s.vals)), (('i', e.idx),))
+
+
+@path(('Entry', 'or_insert'))
+def _entry_or_insert(I, info, args):
+    return _entry_slot(args[0], lambda: args[1])
+
+
+@path(('Entry', 'or_insert_with'))
+def _entry_or_insert_with(I, info, args):
+    return _entry_slot(args[0], lambda: I.call_closure(args[1], []))
+
+
+@path(('Entry', 'or_default'))
+def _entry_or_default(I, info, args):
+    e = args[0]
+
+    def dflt():
+        from interp import type_head
+        t = (e.vty or '').strip()
+        h = type_head(t) if t else ''
+        if h == 'HashSet':
+            from mirparse import split_top
+            inner = re.search(r'HashSet<(.*)>$', t)
+            return Adt('HashSet', None, [SetV(False, type_head(split_top(inner.group(1))[0]) if inner else None)])
+        if h == 'HashMap':
+            return Adt('HashMap', None, [SetV(True, None)])
+        if h == 'Vec':
+            return VecV([])
+        if h in ('String',):
+            return StrV('')
+        if h in ('u8', 'u16', 'u32', 'u64', 'usize', 'i32', 'i64', 'isize'):
+            return 0
+        if h == 'bool':
+            return False
+        raise Unsupported('Entry::or_default for value type %r' % (t,))
+    return _entry_slot(e, dflt)
+
+
+@path(('Entry', 'and_modify'))
+def _entry_and_modify(I, info, args):
+    e = args[0]
+    if e.idx >= 0:
+        I.call_closure(args[1], [Ptr(Cell(VecV(e.s.vals)), (('i', e.idx),))])
+    return e
+
+
 @path(('Vec', 'append'))
 def _vec_append(I, info, args):
     a = I.vec_items(args[0])
@@ -869,6 +982,8 @@ def _first(I, info, args):
     if not items:
         return none()
     q = args[0]
+    if isinstance(q, VecV):
+        return some(Ptr(Cell(q), (('i', 0),)))      # a `&Vec` handed over by value (e.g. through Option<&Vec>::is_some_and)
     while isinstance(load(q), Ptr):
         q = load(q)
     return some(Ptr(q.cell, q.path + (('i', 0),)))
@@ -1717,8 +1832,37 @@ def _it_filter_map(I, info, args):
     return IterV(gen())
 
 
+@trait('Iterator', 'flatten')
+def _it_flatten(I, info, args):
+    """flatten over Option items (by value, or by reference as yielded by iter()/iter_mut() of a Vec<Option<T>>)"""
+    it = get_iter(I, args[0])
+
+    def gen():
+        while True:
+            x = it.next()
+            if x is None:
+                return
+            if isinstance(x, Ptr):
+                o = _opt(I, x)
+                if o.variant == 1:
+                    q = x
+                    while isinstance(load(q), Ptr):
+                        q = load(q)
+                    yield Ptr(q.cell, q.path + (('f', 0),))
+                continue
+            o = opt_force(I, x)
+            if not (isinstance(o, Adt) and o.ty == 'Option'):
+                raise Unsupported('Iterator::flatten over %r' % (o,))
+            if o.variant == 1:
+                yield o.fields[0]
+    return IterV(gen())
+
+
 @trait('Iterator', 'count')
 def _it_count(I, info, args):
+    a0 = load(args[0]) if isinstance(args[0], Ptr) else args[0]
+    if isinstance(a0, CharsOf):
+        return str_nchars(I, a0.s)
     it = get_iter(I, args[0])
     n = 0
     while it.next() is not None:
@@ -2135,9 +2279,18 @@ def _from_utf8(I, info, args):
 B64 = z3.Function('base64_standard', z3.StringSort(), z3.StringSort())
 
 
+B64_OTHER = {}
+
+
 @trait('Engine', 'encode')
 def _b64_encode(I, info, args):
     s = as_str(I, args[1])
+    eng = load(args[0]) if isinstance(args[0], Ptr) else args[0]
+    kind = eng.kind if isinstance(eng, Opaque) else 'base64::STANDARD'
+    if kind != 'base64::STANDARD':
+        # another alphabet / padding: a different (uninterpreted) function of the input
+        f = B64_OTHER.setdefault(kind, z3.Function('base64_' + kind.split('::')[-1].lower(), z3.StringSort(), z3.StringSort()))
+        return StrV(f(s.z()))
     if s.concrete():
         import base64
         return StrV(base64.b64encode(s.s.encode('utf8')).decode('ascii'))
@@ -2146,11 +2299,33 @@ def _b64_encode(I, info, args):
 
 # ---------------------------------------------------------------- chars / String building (rnd_string)
 
+class CharsOf:
+    """str::chars() of a string whose contents are abstract: only counting is supported"""
+    __slots__ = ('s',)
+
+    def __init__(self, s):
+        self.s = s
+
+
+def str_nchars(I, s):
+    """number of characters of a string with abstract contents: between half its byte length (witnesses use 1- and 2-byte
+    characters) and its byte length"""
+    key = s.s.get_id()
+    cache = I.ctx.notes.setdefault('nchars_map', {})     # per path: the constraint lives in this path's solver
+    if key not in cache:
+        n = str_len(I, s)
+        v = I.ctx.var('nchars!%d' % len(I.ctx.notes.setdefault('nchars', [])), z3.IntSort())
+        I.ctx.add(z3.And(v <= n, 2 * v >= n), dom=False)
+        I.ctx.notes['nchars'].append((s.s, v))
+        cache[key] = v
+    return cache[key]
+
+
 @path(('str', 'chars'))
 def _str_chars(I, info, args):
     s = as_str(I, args[0])
     if not s.concrete():
-        raise Unsupported('symbolic str::chars')
+        return CharsOf(s)
     return iter_values(I, [ord(c) for c in s.s])
 
 
